@@ -13,12 +13,13 @@ package cfeminter
 //@ // ---- C18 / C01: the block's mint event carries exactly the amount by which the supply grew ----
 //@ func BeginBlocker(ctx, k)
 //@   requires validMinters($minterParams.Minters, $minterParams.StartTime) && timeOK($blockTime)
-//@   requires Jstore($minterParams, $minterState)
+//@   requires Jstore($minterParams, $minterState) && balNonNeg(modaddr("cfeminter"))
 //@   requires modaddr(k.collectorName) != modaddr("cfeminter")
-//@   modifies $minterState, $histPresent, $histMinted, $histRemFrom, $histRemTo, $bal, $supply, $evCount, $evTag, $evRef
+//@   panic_requires saneMinters($minterParams.Minters) && validDenom($minterParams.MintDenom) && moduleExists(k.collectorName)
+//@   modifies $minterState, $histPresent, $histMinted, $histRemFrom, $histRemTo, $bal, $supply, $evCount, $evTag, $evRef, $accTag, $accSeq, $accPub
 //@   ensures $evCount == old($evCount) + 1 && $evTag[old($evCount)] == typeId("*types.Mint")
 //@   ensures ptr("*types.Mint", $evRef[old($evCount)]).Amount == intString($supply[$minterParams.MintDenom] - old($supply[$minterParams.MintDenom]))
 //@   ensures $supply[$minterParams.MintDenom] >= old($supply[$minterParams.MintDenom])
 //@   ensures forall d: str :: {$supply[d]} d != $minterParams.MintDenom ==> $supply[d] == old($supply[d])
 //@   ensures Jstore($minterParams, $minterState)
-//@   prop C18 C01
+//@   prop C18 C01 C10
